@@ -99,12 +99,16 @@ impl Leaf {
 }
 
 fn words(maxlen: usize) -> Vec<Vec<u8>> {
+    words_over(ALPHA, maxlen)
+}
+
+fn words_over(alpha: &[u8], maxlen: usize) -> Vec<Vec<u8>> {
     let mut all: Vec<Vec<u8>> = vec![vec![]];
     let mut frontier: Vec<Vec<u8>> = vec![vec![]];
     for _ in 0..maxlen {
         let mut next = vec![];
         for w in &frontier {
-            for &b in ALPHA {
+            for &b in alpha {
                 let mut x = w.clone();
                 x.push(b);
                 next.push(x);
@@ -146,15 +150,19 @@ fn random_table(r: &mut StdRng) -> TableAut {
 }
 
 fn random_leaf(r: &mut StdRng) -> Leaf {
+    random_leaf_over(r, &['a', 'b', 'c'])
+}
+
+fn random_leaf_over(r: &mut StdRng, chars: &[char]) -> Leaf {
     match r.gen_range(0, 8) {
         0 | 1 | 2 => Leaf::Tab(random_table(r)),
         3 | 4 => {
             let n = r.gen_range(0, 4);
-            Leaf::Str((0..n).map(|_| *pick(r, &['a', 'b', 'c'])).collect())
+            Leaf::Str((0..n).map(|_| *pick(r, chars)).collect())
         }
         5 | 6 => {
             let n = r.gen_range(0, 4);
-            Leaf::Sub((0..n).map(|_| *pick(r, &['a', 'b', 'c'])).collect())
+            Leaf::Sub((0..n).map(|_| *pick(r, chars)).collect())
         }
         _ => Leaf::Always,
     }
@@ -163,20 +171,24 @@ fn random_leaf(r: &mut StdRng) -> Leaf {
 pub fn c18(log: &mut Log, seed: u64, tier: &str) {
     let thorough = tier == "thorough";
     let mut r = rng(seed, 18);
-    let ws = words(if thorough { 5 } else { 4 });
+    let ws_ascii = words(if thorough { 5 } else { 4 });
     let rounds = if thorough { 400 } else { 60 };
-    macro_rules! emit {
-        ($expr:expr, $aut:expr) => {{
-            let aut = $aut;
-            match guard(|| drive(&aut, &ws)) {
-                Ok(runs) => log.ev(json!({"ev": "AutRun", "expr": $expr, "runs": runs})),
-                Err(p) => log.ev(json!({"ev": "Panic", "in": "AutRun", "msg": p, "expr": $expr})),
-            }
-        }};
-    }
-    for _ in 0..rounds {
-        let a = random_leaf(&mut r);
-        let b = random_leaf(&mut r);
+    // the second half of the rounds: patterns with a two-byte character, strings over its bytes
+    let ws_utf8 = words_over(&[b'a', 0xC3, 0xA9, 0], 4);
+    for round in 0..(rounds + rounds / 2) {
+        let utf8 = round >= rounds;
+        let ws = if utf8 { &ws_utf8 } else { &ws_ascii };
+        macro_rules! emit {
+            ($expr:expr, $aut:expr) => {{
+                let aut = $aut;
+                match guard(|| drive(&aut, &ws[..])) {
+                    Ok(runs) => log.ev(json!({"ev": "AutRun", "expr": $expr, "runs": runs})),
+                    Err(p) => log.ev(json!({"ev": "Panic", "in": "AutRun", "msg": p, "expr": $expr})),
+                }
+            }};
+        }
+        let a = if utf8 { random_leaf_over(&mut r, &['a', '\u{e9}']) } else { random_leaf(&mut r) };
+        let b = if utf8 { random_leaf_over(&mut r, &['a', '\u{e9}']) } else { random_leaf(&mut r) };
         let (ja, jb_) = (a.json(), b.json());
         emit!(ja.clone(), a.clone());
         emit!(json!(["SW", ja]), a.clone().starts_with());
